@@ -1,4 +1,9 @@
+pub mod c07;
+pub mod c08;
 pub mod c10;
+pub mod c14;
+pub mod c15;
+pub mod c18;
 pub mod common;
 
 use crate::prng::{mix2, tag, Prng};
@@ -14,9 +19,13 @@ pub fn run_seed(seed: u64, prop: &str, run: u64) -> u64 {
 /// Generate the scenario of run `run` — a pure function of (seed, prop, run, tier)
 pub fn generate(prop: &str, seed: u64, run: u64, thorough: bool) -> Scenario {
     let mut r = Prng::new(run_seed(seed, prop, run));
-    let _ = thorough;
     match prop {
         "C01" | "C02" | "C03" | "C09" | "C10" | "C16" | "C19" => common::gen_replicas(prop, &mut r, seed, run),
+        "C07" => c07::generate(&mut r, seed, run),
+        "C08" => c08::generate(&mut r, seed, run, thorough),
+        "C14" => c14::generate(&mut r, seed, run),
+        "C15" => c15::generate(&mut r, seed, run),
+        "C18" => c18::generate(&mut r, seed, run),
         _ => panic!("no generator for {prop}"),
     }
 }
@@ -24,12 +33,20 @@ pub fn generate(prop: &str, seed: u64, run: u64, thorough: bool) -> Scenario {
 pub fn execute(ctx: &mut Ctx, s: &Scenario) -> Outcome {
     match s.prop.as_str() {
         "C01" | "C02" | "C03" | "C09" | "C10" | "C16" | "C19" => common::exec_replicas(ctx, s),
+        "C07" => c07::execute(ctx, s),
+        "C08" => c08::execute(ctx, s),
+        "C14" => c14::execute(ctx, s),
+        "C15" => c15::execute(ctx, s),
+        "C18" => c18::execute(ctx, s),
         p => panic!("no executor for {p}"),
     }
 }
 
 pub fn budget(prop: &str, thorough: bool) -> u64 {
     match (prop, thorough) {
+        ("C08", false) => 480,
+        ("C08", true) => 30_000,
+        ("C10", true) => 600_000,
         (_, false) => 24_000,
         (_, true) => 1_200_000,
     }
@@ -61,9 +78,3 @@ pub fn extra_coverage(_prop: &str, _rep: &crate::orchestrate::WorkerReport) -> O
     None
 }
 
-pub mod c07 {
-    use crate::scenario::Scenario;
-    pub fn source_has_nondefault_categories(_s: &Scenario) -> bool {
-        false
-    }
-}
